@@ -11,6 +11,7 @@ import fiddle as fdl
 from fiddle._src import daglish, diffing
 from fiddle._src.codegen import codegen_diff
 
+from vf import dagedit
 from vf import canon as C
 from vf import gen
 from vf.checks import c10
@@ -219,8 +220,18 @@ def run_handmade(spec, acc):
         'b': gen.B('Config', kinds.three, kw={'a': gen.Leaf('q')}),
         'c': gen.Map('dict', [('k', gen.Leaf(5))]),
     })
+    variant = i % 9
+    if variant >= 6:
+      # old holds ONE two-node under two paths (.a and .extra_s): a diff may write through one
+      # path and read the old content through the other
+      sh = gen.B('Config', kinds.two, kw={
+          'x': gen.B('Config', kinds.three, kw={'a': gen.Leaf(rng.randint(1, 9))}),
+          'y': gen.Seq('list', [gen.Leaf(2), gen.Leaf(3)])})
+      old_root = gen.B('Config', kinds.node, kw={
+          'a': sh, 'extra_s': sh,
+          'b': gen.B('Config', kinds.three, kw={'a': gen.Leaf('q')}),
+          'c': gen.Map('dict', [('k', gen.Leaf(5))])})
     old = gen.to_fiddle(old_root)
-    variant = i % 6
     idx = daglish.Index
     new_ref = lambda k: R('new_shared_values', (idx(k),))
     old_ref = lambda *p: R('old', tuple(p))
@@ -248,6 +259,24 @@ def run_handmade(spec, acc):
       changes = (diffing.DeleteValue((A('c'),)),
                  diffing.ModifyValue((A('a'), A('y')), new_ref(0)),
                  diffing.SetValue((A('b'), A('c')), new_ref(0)))
+    elif variant == 6:    # overwrite through one path, read the OLD content through the other
+      shared = ()
+      changes = (diffing.ModifyValue((A('a'), A('x')), fdl.Config(kinds.two, x=rng.randint(10, 19))),
+                 diffing.SetValue((A('b'), A('b')), old_ref(A('extra_s'), A('x'))))
+    elif variant == 7:    # the same with a leaf slot and a new shared value in between
+      shared = ([old_ref(A('extra_s'), A('y')), 'w'],)
+      changes = (diffing.ModifyValue((A('a'), A('y')), 'overwritten'),
+                 diffing.SetValue((A('b'), A('c')), new_ref(0)),
+                 diffing.SetValue((A('c'), daglish.Key('m')), old_ref(A('extra_s'), A('y'))))
+    elif variant == 8:    # a diff computed on a twin WITHOUT the sharing, used on the shared one
+      twin_root, _ = dagedit.structural_clone(old_root)
+      twin_root.kw['extra_s'], _ = dagedit.structural_clone(twin_root.kw['a'])
+      t_old = gen.to_fiddle(twin_root)
+      t_new = copy.deepcopy(t_old)
+      t_new.a.x = rng.choice(['tanh', 3, None])
+      t_new.b.b = t_new.extra_s.x
+      built = diffing.build_diff(t_old, t_new)
+      shared, changes = built.new_shared_values, built.changes
     else:                 # shared list referencing a shared config that references old
       shared = ([new_ref(1), new_ref(1)], fdl.Config(kinds.two, x=old_ref(A('b'))))
       changes = (diffing.ModifyValue((A('c'), daglish.Key('k')), new_ref(0)),
